@@ -47,6 +47,7 @@ MIXED = {
     'F56': '=AVERAGEIFS(B1:B3,A1:A3,">0",B1:B3,"<3")', 'F57': '=COUNTIFS(A4:A5,"a*")', 'F58': '=SUMIFS(B1:B3,A1:A3,A1)',
     'F59': '=COUNTIFS(A1:A3,">"&B1)', 'F60': '=COUNTIFS(A4:A5,"x")', 'F61': '=SUMIF(A4:A5,"a?c",B4:B5)',
     'F62': '=(A1+A2)%', 'F63': '=A1/A9', 'F64': '=A99+1', 'F65': '=A99&"t"', 'F66': '=IFERROR(VLOOKUP("zz",C1:D3,2,FALSE),"none")',
+    'F71': '=A4&E1', 'F72': '=CONCATENATE(E2,"|",E3)', 'F73': '=COUNTIFS(A1:A3,">"&E2)', 'F74': '=E1&E2&E3&A6&A99', 'E1': 1e20, 'E2': 1e-5, 'E3': -2.5e16,
     'F67': '=INDEX(A1:A3&B1:B3,2)', 'F68': '=MIN(B1:B3)+MAX(B1:B3)', 'F69': '=TEXT(A1,"0")', 'F70': '=COUNT(1,2,"3")',
 }
 VALS = [[], [('A1', 7), ('A2', -1.25), ('A5', 'Abc'), ('A9', 2)], [('A1', 0), ('A4', ''), ('B2', 2.0), ('A7', dt.datetime(2023, 12, 31))],
@@ -122,7 +123,8 @@ def call(cls, inst, name, args):
 
 
 B = 'BLANK'   # placeholder replaced per class
-NUMS = [0, 1, -1, 2, 2.5, -2.5, 0.0045, 1.005, 10, 1e15, 2 ** 53 + 1, -0.0]
+NUMS = [0, 1, -1, 2, 2.5, -2.5, 0.0045, 1.005, 10, 1e15, 2 ** 53 + 1, -0.0, 1e16, -1e16, 1e20, 1.5e300, 1e-5, -2.5e-7, 5e-324, 123456789012345678,
+        0.1 + 0.2, 1 / 3, 2.0, -7.0, 1e15 + 0.5, 999999999999999.9, float('inf'), float('-inf'), float('nan')]
 TEXTS = ['', 'a', 'abc', 'ABC', 'a?c', 'a*', '~*x', '10', '1.5', 'nan', 'x[1]', '2024-01-31', '31/01/2024', '12:30', '5%', '1 234,5', 'a.b', '(a)']
 DATES = [dt.datetime(2024, 1, 31), dt.datetime(2024, 2, 29), dt.datetime(2023, 12, 31, 23, 59), dt.datetime(2020, 2, 29), dt.datetime(2024, 3, 1)]
 COL = [[1], [3], [3], [7], [B], ['x']]
@@ -170,6 +172,9 @@ def synth(name, rng, n):
         '_sumifs': lambda: ([[10], [20], [30]], [[1], [2], [B]], P([lambda x: x > 0, lambda x: x == 0]), *P([(), ([['a'], ['b'], ['a']], lambda x: x == 'a'), ([[1], [2]], lambda x: True)])),
         '_countifs': lambda: (P([[[1], [0], [3]], [['a'], [B], ['c']]]), P([lambda x: x is not None and x != 2, lambda x: x == 0, lambda x: True]), *P([(), ([[1], [2], [3]], lambda x: x > 1)])),
         '_averageifs': lambda: (P([[[10], [20], [30]], [[True], [B], [3]], [['x'], [1], [2]], []]), [[1], [2], [3]], P([lambda x: x > 1, lambda x: x > 9])),
+        '_criterion': lambda: (P(scal + ['>5', '<=2.5', '<>a', '=abc', 'a*', '?', '~*', '>=2024-01-31', '<>', '=', '>x', '10', ' 7 ', '>1e3', '<-1']),),
+        '_wildcard_pattern': lambda: (P(TEXTS + ['a?b', '*', '~~', '~?x~*', 'a.b*', '[a]?', '\\d+', '~', 'x~']),),
+        '_criterion_number': lambda: (P(scal + [' 12 ', '-3.5', '1e3', 'inf', 'nan', '0x10', '1_000', '٣']),),
         'set_arguments': lambda: ([{'uid': '_0_0_0', 'value': P(NUMS)}],),
         'exec_function_in': lambda: (P(['_9_9_9', '_77_0_0']),), '_cell_preprocessor': lambda: (P(['_9_9_9', '_77_1_1']),),
     }
@@ -235,17 +240,37 @@ def compare_structure(r, gen, hand):
     return sorted(set(hg) & set(hh))
 
 
+def call_predicate(cls, inst, name, args):
+    """helpers that return a predicate (_criterion): compare what the predicate says on a grid of cells"""
+    f, is_static = helper_names(cls)[name]
+    try:
+        pred = f(*args) if is_static else f(inst, *args)
+    except BaseException as e:  # noqa: B902
+        return ('exc', type(e).__name__)
+    out = []
+    for cell in NUMS[:12] + TEXTS + DATES[:3] + [cls.EmptyCell(), True, False, None, dt.date(2024, 1, 31)]:
+        try:
+            out.append(canon(pred(cell)))
+        except BaseException as e:  # noqa: B902
+            out.append(('exc', type(e).__name__))
+    return ('pred', tuple(out))
+
+
 def differential(r, gen, hand, name, args, source):
     gi, hi = gen(), hand()
-    a = call(gen, gi, name, subst_blank(args, gen))
-    b = call(hand, hi, name, subst_blank(args, hand))
+    if name == '_criterion':
+        a = call_predicate(gen, gi, name, subst_blank(args, gen))
+        b = call_predicate(hand, hi, name, subst_blank(args, hand))
+    else:
+        a = call(gen, gi, name, subst_blank(args, gen))
+        b = call(hand, hi, name, subst_blank(args, hand))
     r.ev()
     if name == '_today' and a[0] == b[0] == 'ok':
         return
     if a != b:
         report(r, ID, None, {'helper': name, 'args': canon(args), 'source': source}, {'generated': a, 'abstract': b}, 'identical result or exception class',
                monitor='helper-differential')
-    if a[0] == 'ok' or b[0] == 'ok':
+    if a[0] in ('ok', 'pred') or b[0] in ('ok', 'pred'):
         r.nt((name, repr(canon(args))))
     r.count('diff:' + name)
 
